@@ -134,13 +134,23 @@ Definition check_pair (c : pair_case) : Z :=
                           end) (pp_same c)) then 5
   else 0.
 
-Inductive hcase := HCodec (c : codec_case) | HPeer (c : peer_case) | HPair (c : pair_case).
+(* ---------------- header validity ---------------- *)
+(* checkEventValid on a header with the given magic / version byte / type byte: 0 valid, 1 ErrInvalidVersion
+   (magic or version), 2 ErrInvalidMsgType — compared for all 256 version bytes *)
+Record valid_case := { vc_magic : Z; vc_ver : Z; vc_type : Z; vc_obs : Z }.
+Definition check_validity (c : valid_case) : Z :=
+  let h := {| h_len := c_headerSize; h_magic := vc_magic c; h_ver := vc_ver c; h_type := vc_type c |} in
+  let m := match check_valid h with None => 0 | Some EInvalidVersion => 1 | Some EInvalidMsgType => 2 | Some _ => 3 end in
+  if m =? vc_obs c then 0 else 31.
+
+Inductive hcase := HCodec (c : codec_case) | HPeer (c : peer_case) | HPair (c : pair_case) | HValid (c : valid_case).
 
 Definition check_case (c : hcase) : Z :=
   match c with
   | HCodec c => check_codec c
   | HPeer c => let k := check_peer c in if k =? 0 then 0 else 10 + k
   | HPair c => let k := check_pair c in if k =? 0 then 0 else 20 + k
+  | HValid c => check_validity c
   end.
 
 Fixpoint mismatches_from (n : nat) (cs : list hcase) : list (nat * Z) :=
